@@ -133,7 +133,10 @@ pub fn parse_u64_digits<'a, Iter, const FORMAT: u128>(
     // Parse single digits at a time.
     for &c in iter {
         let digit = char_to_valid_digit_const(c, radix as u32);
-        if !*overflowed {
+        // Only the first `step` digits are significant: the exponent in
+        // `Number` was scaled as if the rest were truncated, even if one
+        // more digit would happen to fit without overflowing.
+        if !*overflowed && *step > 0 {
             let result = mantissa.checked_mul(radix).and_then(|x| x.checked_add(digit as u64));
             if let Some(mant) = result {
                 *mantissa = mant;
@@ -142,6 +145,7 @@ pub fn parse_u64_digits<'a, Iter, const FORMAT: u128>(
                 *zero &= digit == 0;
             }
         } else {
+            *overflowed = true;
             *zero &= digit == 0;
         }
         *step = step.saturating_sub(1);
